@@ -280,6 +280,24 @@ func runProbes() probeResults {
 		var a6, b6 [][]string
 		ok = ok && noPanic(func() { s6.Validate(&a6); s6.Validate(&b6) })
 		ok = ok && buf[:1][0] == "" && len(a6) == 1 && len(a6[0]) == 1 && len(b6) == 1 && len(b6[0]) == 1
+		// map-valued fields of default elements (http.Header-like): the copy must not share the VALUES either
+		type Req struct {
+			Name    string
+			Headers map[string][]string
+			Ptrs    map[string]*int
+		}
+		x7 := 7
+		d7 := []Req{{Name: "n", Headers: map[string][]string{"Accept": {"json"}}, Ptrs: map[string]*int{"k": &x7}}}
+		s7 := z.Slice(z.Struct(z.Schema{"name": z.String()})).Default(d7).PostTransform(func(ptr any, ctx z.Ctx) error {
+			v := ptr.(*[]Req)
+			(*v)[0].Headers["Accept"][0] = "MUTATED"
+			*(*v)[0].Ptrs["k"] = 99
+			(*v)[0].Headers["New"] = []string{"x"}
+			return nil
+		})
+		var a7, b7 []Req
+		ok = ok && noPanic(func() { s7.Validate(&a7); s7.Validate(&b7) })
+		ok = ok && d7[0].Headers["Accept"][0] == "json" && x7 == 7 && len(d7[0].Headers) == 1 && len(b7) == 1 && b7[0].Headers["Accept"][0] == "MUTATED"
 		r.SliceDefaultDeep = r.SliceDefaultDeep && ok
 	}
 	return r
